@@ -42,7 +42,10 @@ INCLUDES = ["-I" + VERIF + "/include", "-I" + VERIF + "/specs",
             "-I" + REPO]
 
 SAFETY_FLAGS = {
-    "mem": ["--bounds-check", "--pointer-check"],
+    # memory safety + contract obligations; signed overflow / shift UB not
+    # flagged (the code base relies on two's complement wrap-around)
+    "mem": ["--bounds-check", "--pointer-check", "--no-signed-overflow-check",
+            "--no-undefined-shift-check"],
     "arith": ["--bounds-check", "--pointer-check", "--pointer-overflow-check",
               "--conversion-check", "--signed-overflow-check",
               "--div-by-zero-check", "--undefined-shift-check"],
@@ -117,6 +120,13 @@ class Undecided(Exception):
     pass
 
 
+def xsrc(s):
+    """extra source of a target: real repo file ({repo}/...) or /verif file"""
+    if s.startswith("{repo}/"):
+        return REPO + s[len("{repo}"):]
+    return VERIF + "/" + s
+
+
 def pre_steps(t, wd):
     """Optional mechanical extraction step (bison actions, flex user code)."""
     for step in t.get("pre", []):
@@ -136,7 +146,7 @@ def build_goto(t, wd, variant_defs, mode_defs, tag):
     cmd = (["goto-cc"] + BASE_DEFS + INCLUDES + ["-I" + wd] +
            ["-D" + d for d in t.get("defines", [])] + mode_defs +
            variant_defs + ["--function", t.get("entry", "harness"), src] +
-           [VERIF + "/" + s for s in t.get("extra_sources", [])] +
+           [xsrc(s) for s in t.get("extra_sources", [])] +
            ["-o", gb])
     cmds.append(cmd)
     rc, out, err, _ = sh(cmd, 300)
@@ -340,7 +350,7 @@ def native_replay(t, wd, witness_lines, mode_defs, variant_defs=()):
            INCLUDES + ["-I" + wd] +
            ["-D" + d for d in t.get("defines", [])] + list(mode_defs) +
            list(variant_defs) + [src] +
-           [VERIF + "/" + s for s in t.get("extra_sources", [])] +
+           [xsrc(s) for s in t.get("extra_sources", [])] +
            [lib, "-lcrypto", "-lm", "-lpthread", "-o", exe])
     rc, out, err, _ = sh(cmd, 300)
     if rc != 0:
